@@ -12,7 +12,8 @@ TextSyms == <<
   <<1>>, <<195, 169>>, <<255>>,
   VerbatimOpen, VerbatimClose,
   <<123,123,32,118,32,125,125>>,          \* {{ v }}
-  <<123,35,32,99,32,35,125>>              \* {# c #}
+  <<123,35,32,99,32,35,125>>,             \* {# c #}
+  <<123,35,195,169,35,125>>               \* {#e-acute#}: a comment with a multi-byte character (columns count bytes there too)
 >>
 \* code-mode alphabet: used after a fixed "{{" or "{%" opener
 CodeSyms == <<
